@@ -56,6 +56,13 @@ def run(c, a):
     c.sample_events(ev, 1, lambda l: '"rstart"' in l)
     c.sample_events(ev, 3, lambda l: '"rcall"' in l and '"panic":false' in l and '"lo"' in l)
     c.trace("RefineTrace", ev, boundary=is_start, dedupe=False, ctx_for=ctx_for)
+    # --- Range() of arbitrary values (known, null, unknown, structures holding unknown members)
+    rvec = c.path("rangeof-vec.ndjson")
+    nr = c.tlc_gen("RangeOfGen", {"VTIER": c.tier, "VOUT": rvec})
+    rev = c.path("rangeof-ev.ndjson")
+    c.harness("rangeof", rev, inp=rvec)
+    c.note("range-of lines", nr)
+    c.trace("RangeOfTrace", rev)
     # --- continuation safety of the safe prefix constructor
     combos = [(2, 1, "full"), (3, 1, "small")] if c.tier != "thorough" else [(3, 1, "full"), (2, 2, "full"), (4, 1, "small")]
     jobs, outs = [], []
